@@ -116,12 +116,12 @@ func parseSelector(l *lexer, t token) (selector Selector, next token, err error)
 				if len(args) == 0 {
 					return nil, tkInvalid, fmt.Errorf("expected * or identifier in argument 'COUNT(...)' in select statement")
 				}
-				return &CountFuncSelector{Arg: args[0]}, l.next(), nil
+				selector = &CountFuncSelector{Arg: args[0]}
 			} else if strings.EqualFold(name, "now") {
 				if len(args) != 0 {
 					return nil, tkInvalid, fmt.Errorf("unexpected argument for 'NOW()' function call in select statement")
 				}
-				return &NowFuncSelector{}, l.next(), nil
+				selector = &NowFuncSelector{}
 			} else {
 				return nil, tkInvalid, fmt.Errorf("unsupported function call '%s' in select statement", name)
 			}
